@@ -47,6 +47,49 @@ theorem get_clear_other : (fs : PFields) → (n k : Nat) → n ≠ k → (fs.cle
     · rename_i h2; subst h2; simp [get, h, get_clear_other rest j k h]
     · simp [get, get_clear_other rest n k h]
 
+/-- no field number is stored twice -/
+def distinct : PFields → Bool
+  | .nil => true
+  | .cons n _ rest => (rest.get n).isNone && rest.distinct
+
+theorem distinct_set : (fs : PFields) → (n : Nat) → (v : PValue) → fs.distinct = true →
+    (fs.set n v).distinct = true
+  | .nil, n, v, _ => by simp [set, distinct, get]
+  | .cons k w rest, n, v, h => by
+    simp only [distinct, Bool.and_eq_true] at h
+    simp only [set]
+    split
+    · simp [distinct, h.1, h.2]
+    · rename_i hne
+      simp only [distinct, Bool.and_eq_true]
+      refine ⟨?_, distinct_set rest n v h.2⟩
+      rw [get_set_other rest n k v (fun e => hne e.symm)]
+      exact h.1
+
+theorem get_clear_none : (fs : PFields) → (n k : Nat) → fs.get k = none → (fs.clear n).get k = none
+  | .nil, _, _, _ => rfl
+  | .cons j w rest, n, k, h => by
+    simp only [get] at h
+    split at h
+    · cases h
+    · rename_i hjk
+      simp only [clear]
+      split
+      · exact get_clear_none rest n k h
+      · simp only [get, hjk, if_false]; exact get_clear_none rest n k h
+
+theorem distinct_clear : (fs : PFields) → (n : Nat) → fs.distinct = true → (fs.clear n).distinct = true
+  | .nil, _, _ => rfl
+  | .cons k w rest, n, h => by
+    simp only [distinct, Bool.and_eq_true] at h
+    simp only [clear]
+    split
+    · exact distinct_clear rest n h.2
+    · simp only [distinct, Bool.and_eq_true]
+      refine ⟨?_, distinct_clear rest n h.2⟩
+      have : rest.get k = none := by simpa using h.1
+      simp [get_clear_none rest n k this]
+
 end PFields
 
 /-! ### `find?` under distinct keys -/
@@ -188,9 +231,10 @@ theorem encodeFields_spec (conv : Field → Option (Option PValue)) :
     (∀ f ∈ fields, ∃ o, conv f = some o ∧ ∀ pv, o = some pv → validFor f pv = true) →
     ∃ fs, encodeFields conv fields acc = some fs ∧
       (∀ f ∈ fields, ∀ o, conv f = some o → fs.get f.number = o) ∧
-      (∀ n, (∀ f ∈ fields, f.number ≠ n) → fs.get n = acc.get n)
+      (∀ n, (∀ f ∈ fields, f.number ≠ n) → fs.get n = acc.get n) ∧
+      (acc.distinct = true → fs.distinct = true)
   | [], acc, _, _ => by
-    refine ⟨acc, rfl, ?_, ?_⟩
+    refine ⟨acc, rfl, ?_, ?_, id⟩
     · intro f hf; cases hf
     · intro n _; rfl
   | f :: rest, acc, hd, h => by
@@ -200,8 +244,8 @@ theorem encodeFields_spec (conv : Field → Option (Option PValue)) :
       fun g hg => h g (List.mem_cons_of_mem _ hg)
     cases o with
     | none =>
-      obtain ⟨fs, h1, h2, h3⟩ := encodeFields_spec conv rest (acc.clear f.number) hd.2 hrest
-      refine ⟨fs, ?_, ?_, ?_⟩
+      obtain ⟨fs, h1, h2, h3, h4⟩ := encodeFields_spec conv rest (acc.clear f.number) hd.2 hrest
+      refine ⟨fs, ?_, ?_, ?_, fun ha => h4 (PFields.distinct_clear _ _ ha)⟩
       · simp [encodeFields, ho, h1]
       · intro g hg o' ho'
         rcases List.mem_cons.mp hg with e | e
@@ -215,8 +259,8 @@ theorem encodeFields_spec (conv : Field → Option (Option PValue)) :
         exact PFields.get_clear_other _ _ _ (hn f List.mem_cons_self)
     | some pv =>
       have hvalid : validFor f pv = true := hv pv rfl
-      obtain ⟨fs, h1, h2, h3⟩ := encodeFields_spec conv rest (acc.set f.number pv) hd.2 hrest
-      refine ⟨fs, ?_, ?_, ?_⟩
+      obtain ⟨fs, h1, h2, h3, h4⟩ := encodeFields_spec conv rest (acc.set f.number pv) hd.2 hrest
+      refine ⟨fs, ?_, ?_, ?_, fun ha => h4 (PFields.distinct_set _ _ _ ha)⟩
       · simp [encodeFields, ho, hvalid, h1]
       · intro g hg o' ho'
         rcases List.mem_cons.mp hg with e | e
@@ -379,6 +423,64 @@ theorem ddMap_get (pool : Pool) (fields : List Field) : (m : VMap) → keysSorte
         · simp only [VMap.get, hk, if_false]; exact ih
       · simp only [VMap.get, hk, if_false]; exact ih
 
+/-! ### normalisation (what the wire does) is invisible to `proto_to_value` -/
+
+/-- `none`: the message as built; `some w`: `normalize pool w` of it -/
+def normOpt (pool : Pool) : Option Bool → PValue → PValue
+  | none, pv => pv
+  | some w, pv => normalize pool w pv
+
+def normFieldsOpt (pool : Pool) (fields : List Field) : Option Bool → PFields → PFields
+  | none, fs => fs
+  | some w, fs => normFields pool w fields fs
+
+theorem normList_isEmpty (pool : Pool) (w : Bool) (xs : PList) : (normList pool w xs).isEmpty = xs.isEmpty := by
+  cases xs <;> simp [normList, PList.isEmpty]
+
+theorem normMap_isEmpty (pool : Pool) (w : Bool) (es : PMap) : (normMap pool w es).isEmpty = es.isEmpty := by
+  cases es <;> simp [normMap, PMap.isEmpty]
+
+theorem isDefault_normalize (pool : Pool) (w : Bool) (f : Field) (pv : PValue) :
+    isDefault pool f (normalize pool w pv) = isDefault pool f pv := by
+  cases pv <;> simp only [normalize]
+  case message r fs =>
+    cases pool.msg r <;> simp only [isDefault] <;> split <;> first | rfl | (cases f.kind <;> rfl)
+  case list xs => simp [isDefault, normList_isEmpty]
+  case map es => simp [isDefault, normMap_isEmpty]
+
+theorem hasValue_normalize (pool : Pool) (w : Bool) (f : Field) (pv : PValue) :
+    hasValue pool f (normalize pool w pv) = hasValue pool f pv := by
+  simp [hasValue, isDefault_normalize]
+
+theorem get_normFields (pool : Pool) (w : Bool) (fields : List Field)
+    (hnum : distinctBy (fun f : Field => f.number) fields = true) :
+    (fs : PFields) → fs.distinct = true → ∀ f ∈ fields,
+    (normFields pool w fields fs).get f.number =
+      match fs.get f.number with
+      | none => none
+      | some pv =>
+        if hasValue pool f pv then some (wrapList (w && f.isList) pv (normalize pool w pv)) else none
+  | .nil, _, f, _ => by simp [normFields, PFields.get]
+  | .cons n pv rest, hd, f, hf => by
+    simp only [PFields.distinct, Bool.and_eq_true] at hd
+    have ih := get_normFields pool w fields hnum rest hd.2 f hf
+    by_cases hn : n = f.number
+    · subst hn
+      have hfind : fields.find? (fun g => g.number == f.number) = some f :=
+        find_of_mem_distinct (fun f : Field => f.number) _ f (by intro x; simp) fields hnum hf
+      have hrest : rest.get f.number = none := by simpa using hd.1
+      rw [hrest] at ih
+      simp only [normFields, hfind, PFields.get, if_true]
+      split
+      · simp [PFields.get]
+      · exact ih
+    · simp only [normFields, PFields.get, hn, if_false]
+      split
+      · split
+        · simp only [PFields.get, hn, if_false]; exact ih
+        · exact ih
+      · exact ih
+
 /-! ### one message: the two loops are inverse when they are inverse field by field -/
 
 /-- What the two case tables owe each other for one field: `ox` is `map.get(field_name)`, `o` what
@@ -386,9 +488,9 @@ theorem ddMap_get (pool : Pool) (fields : List Field) : (m : VMap) → keysSorte
 def FieldRT (pool : Pool) (f : Field) (ox : Option Value) (o : Option PValue) : Prop :=
   match ox with
   | none => o = none
-  | some x => ∃ pv, o = some pv ∧ validFor f pv = true ∧
+  | some x => ∃ pv, o = some pv ∧ validFor f pv = true ∧ (f.isList = true → ∃ xs, pv = .list xs) ∧
       hasValue pool f pv = !isDefaultValue pool f x ∧
-      toValue pool (some f) pv = some (dropDefaults pool f x)
+      ∀ mode, toValue pool (some f) (normOpt pool mode pv) = some (dropDefaults pool f x)
 
 theorem message_roundtrip (pool : Pool) (fields : List Field) (m : VMap)
     (conv : Field → Option (Option PValue))
@@ -397,9 +499,10 @@ theorem message_roundtrip (pool : Pool) (fields : List Field) (m : VMap)
     (hs : keysSorted m = true)
     (hkeys : ∀ k x, m.get k = some x → ∃ f, findField fields k = some f)
     (h : ∀ f ∈ fields, ∃ o, conv f = some o ∧ FieldRT pool f (m.get f.name) o) :
-    ∃ fs, encodeFields conv fields .nil = some fs ∧
-      collectFields (fun f => toValueLookup pool fs f) fields .nil = some (ddMap pool fields m) := by
-  obtain ⟨fs, h1, h2, _⟩ := encodeFields_spec conv fields .nil hnums (by
+    ∃ fs, encodeFields conv fields .nil = some fs ∧ ∀ mode,
+      collectFields (fun f => toValueLookup pool (normFieldsOpt pool fields mode fs) f) fields .nil =
+        some (ddMap pool fields m) := by
+  obtain ⟨fs, h1, h2, _, hdist⟩ := encodeFields_spec conv fields .nil hnums (by
     intro f hf
     obtain ⟨o, ho, hrt⟩ := h f hf
     refine ⟨o, ho, ?_⟩
@@ -412,26 +515,51 @@ theorem message_roundtrip (pool : Pool) (fields : List Field) (m : VMap)
       rw [hx] at hrt
       obtain ⟨pv', e, hv, _⟩ := hrt
       cases e; exact hv)
+  have hdist := hdist rfl
   refine ⟨fs, h1, ?_⟩
+  intro mode
   let e : Field → Option Value := fun f =>
     match m.get f.name with
     | none => none
     | some x => if isDefaultValue pool f x then none else some (dropDefaults pool f x)
-  have hlook : ∀ f ∈ fields, toValueLookup pool fs f = some (e f) := by
+  have hlook : ∀ f ∈ fields, toValueLookup pool (normFieldsOpt pool fields mode fs) f = some (e f) := by
     intro f hf
     obtain ⟨o, ho, hrt⟩ := h f hf
-    rw [toValueLookup_eq, h2 f hf o ho]
+    have hget := h2 f hf o ho
+    rw [toValueLookup_eq]
     unfold FieldRT at hrt
     cases hx : m.get f.name with
     | none =>
       rw [hx] at hrt; subst hrt
-      simp [e, hx]
+      cases mode with
+      | none => simp [normFieldsOpt, hget, e, hx]
+      | some w => simp [normFieldsOpt, get_normFields pool w fields hnums fs hdist f hf, hget, e, hx]
     | some x =>
       rw [hx] at hrt
-      obtain ⟨pv, ho', _, hhas, htv⟩ := hrt
+      obtain ⟨pv, ho', _, hlist, hhas, htv⟩ := hrt
       subst ho'
-      simp only [e, hx, hhas, htv]
-      cases isDefaultValue pool f x <;> simp
+      cases mode with
+      | none =>
+        have := htv none
+        simp only [normOpt] at this
+        simp only [normFieldsOpt, hget, e, hx, hhas, this]
+        cases isDefaultValue pool f x <;> simp
+      | some w =>
+        have htw := htv (some w)
+        simp only [normOpt] at htw
+        have hwrap : wrapList (w && f.isList) pv (normalize pool w pv) = normalize pool w pv := by
+          unfold wrapList
+          cases hl : f.isList with
+          | false => simp
+          | true =>
+            obtain ⟨xs, rfl⟩ := hlist hl
+            simp
+        simp only [normFieldsOpt, get_normFields pool w fields hnums fs hdist f hf, hget, hhas, hwrap, e, hx]
+        cases hdv : isDefaultValue pool f x with
+        | true => simp
+        | false =>
+          simp only [Bool.not_false, if_true, hasValue_normalize, hhas, hdv, htw]
+          simp
   rw [collectFields_spec _ e fields .nil hlook]
   congr 1
   apply ext_keysSorted _ _ (foldIns_keysSorted e fields .nil rfl) (keysSorted_ddMap pool fields m hs)
@@ -452,7 +580,7 @@ theorem message_roundtrip (pool : Pool) (fields : List Field) (m : VMap)
     cases hx : m.get f.name with
     | none => rfl
     | some x =>
-      simp only [hff]
+      simp only []
       cases isDefaultValue pool f x <;> simp
 
 end Proto
